@@ -385,6 +385,40 @@ func predEdgesS(fn *ssa.Function, specs []condSpec, depth int) []Edge {
 
 func predEdgesCore(fn *ssa.Function, mk func(fn *ssa.Function) []Edge, valCert func(v ssa.Value, truth bool) bool, depth int) []Edge {
 	out := mk(fn)
+	// "if flag" where flag is a boolean phi tested in its own block: for the incoming value that is
+	// itself a certifying condition (flag = a && b assigned, not branched on), the corresponding
+	// outcome of the test certifies for paths that arrive over that phi edge
+	if valCert != nil {
+		for _, b := range fn.Blocks {
+			if len(b.Instrs) == 0 {
+				continue
+			}
+			iff, ok := b.Instrs[len(b.Instrs)-1].(*ssa.If)
+			if !ok {
+				continue
+			}
+			ck, cpos := condKey(iff.Cond)
+			ph, isPhi := ck.(*ssa.Phi)
+			if !isPhi || ph.Block() != b {
+				continue
+			}
+			for i, e := range ph.Edges {
+				if _, isC := e.(*ssa.Const); isC {
+					continue
+				}
+				for _, truth := range []bool{true, false} {
+					if valCert(strip(e), truth) {
+						// the phi is `truth` -> If outcome: cond true iff (phi == cpos)
+						idx := 0
+						if truth != cpos {
+							idx = 1
+						}
+						out = append(out, Edge{From: b, Idx: idx, Via: b.Preds[i]})
+					}
+				}
+			}
+		}
+	}
 	if depth <= 0 || theProg == nil {
 		return out
 	}
@@ -858,7 +892,7 @@ func boolRetEscape(h *ssa.Function, want bool, cut []Edge, blocked func(*ssa.Bas
 		case *ssa.If:
 			ck, cpos := condKey(last.Cond)
 			for i, s := range b.Succs {
-				if isCut[Edge{b, i}] {
+				if isCut[Edge{From: b, Idx: i}] {
 					continue
 				}
 				out := (i == 0) == cpos
@@ -872,7 +906,7 @@ func boolRetEscape(h *ssa.Function, want bool, cut []Edge, blocked func(*ssa.Bas
 			return
 		}
 		for i, s := range b.Succs {
-			if isCut[Edge{b, i}] {
+			if isCut[Edge{From: b, Idx: i}] {
 				continue
 			}
 			dfs(s, known)
